@@ -226,7 +226,22 @@ def run(ctx):
     ctx.cov["traces_validated_against_impl"] += res.events - len(res.rejected)
     add_samples(ctx, tp, n=5, every=4001)
     classes = {}
-    for (line, ev, info, _scen) in res.rejected:
+    # the first replay files written should show different things: one event per (reason, type, component type) first
+    seen, first, rest = set(), [], []
+    for rj in res.rejected:
+        key = (rj[2], rj[1].get("ty"), rj[1].get("t"))
+        (rest if key in seen else first).append(rj)
+        seen.add(key)
+    prio = {'"uniform-hue-off-arc"': 2, '"hue-not-uniform-on-arc"': 3, '"panic"': 1}
+    by = {}
+    for rj in sorted(first, key=lambda rj: (rj[1].get("alpha", 0), rj[1].get("t") != "f64", rj[1].get("ty") != "hsv", rj[1].get("ty"))):
+        by.setdefault(rj[2], []).append(rj)
+    first = []
+    while any(by.values()):                       # round robin over the reasons, unexpected ones first
+        for why in sorted(by, key=lambda w: (prio.get(w, 0), w)):
+            if by[why]:
+                first.append(by[why].pop(0))
+    for (line, ev, info, _scen) in first + rest:
         why = info.strip().strip('"')
         classes[why] = classes.get(why, 0) + 1
         what = "%s - %s" % (describe(ev), REASONS.get(why, why))
